@@ -545,19 +545,32 @@ def _copula_probe(ctx, d, cls, corr):
 
 # ------------------------------------------------------------------------------------------------- copula variance matrix (#27)
 class SqrtmRecorder:
-    """records every matrix the constructor hands to scipy.linalg.sqrtm (module attribute patched for the duration)"""
+    """records every square matrix the constructor hands to a matrix factorisation (scipy.linalg.sqrtm / cholesky / eigh,
+    numpy.linalg.eigh / cholesky / svd — module attributes patched for the duration): which factorisation the code uses to
+    take the square root of its variance matrix is its own business, the property only speaks about the matrix"""
+    TARGETS = [(scipy.linalg, "sqrtm"), (scipy.linalg, "cholesky"), (scipy.linalg, "eigh"), (np.linalg, "eigh"),
+               (np.linalg, "cholesky"), (np.linalg, "svd")]
 
     def __enter__(self):
-        self.args, self.orig = [], scipy.linalg.sqrtm
+        self.args, self.orig = [], []
+        for mod, name in self.TARGETS:
+            orig = getattr(mod, name)
+            self.orig.append((mod, name, orig))
 
-        def rec(a, *r, **k):
-            self.args.append(np.array(a, dtype=float, copy=True))
-            return self.orig(a, *r, **k)
-        scipy.linalg.sqrtm = rec
+            def rec(a, *r, _orig=orig, **k):
+                try:
+                    m = np.array(a, dtype=float, copy=True)
+                    if m.ndim == 2 and m.shape[0] == m.shape[1]:
+                        self.args.append(m)
+                except Exception:
+                    pass
+                return _orig(a, *r, **k)
+            setattr(mod, name, rec)
         return self
 
     def __exit__(self, *exc):
-        scipy.linalg.sqrtm = self.orig
+        for mod, name, orig in self.orig:
+            setattr(mod, name, orig)
         return False
 
 
@@ -623,13 +636,20 @@ def matrix_checks(ctx, d, cls, dim, fv, outs_ij, sig, Vs, D, exact, corr=True):
                  "term is added", "pairs_evaluated": [list(ij) for ij, _ in outs_ij]}, cls=cls)
         return None
     outs = [v for _, v in outs_ij]
+    Dc0 = np.asarray(D)
+    Vs = [W for W in Vs if W.shape == (dim, dim)]
     if not Vs:
-        ctx.fail("oracle", "c04.variance_matrix.sqrtm", d, {"what": "the constructor did not call scipy.linalg.sqrtm"}, cls=cls)
-        return None
+        # no recognised factorisation call: take the covariance per unit time the simulation actually uses, D·Dᵀ, as the
+        # variance matrix (then compared with M's assembly at 2^-40, not bit for bit)
+        if not np.all(np.isfinite(Dc0.real)):
+            ctx.fail("oracle", "c04.diffusion_factor", d, {"what": "diffusion matrix has non-finite entries", "diffusion_matrix": str(Dc0.tolist())[:400]}, cls=cls)
+            return None
+        Dr0 = np.asarray(Dc0.real, dtype=float)
+        Vs, exact = [Dr0 @ Dr0.T], False
     V = Vs[-1]
     if any(not np.array_equal(V, W) for W in Vs):
         ctx.fail("oracle", "c04.variance_matrix.deterministic", d, {"what": "two constructions of the simulation object of the same chain "
-                 "hand different matrices to sqrtm", "first": Vs[0].tolist(), "last": V.tolist()}, cls=cls)
+                 "hand different matrices to the factorisation", "first": Vs[0].tolist(), "last": V.tolist()}, cls=cls)
         return None
     mirrors = None
     if corr:
